@@ -10,7 +10,7 @@ Ops
 
 Observations after a fill (for the position manager the fill was routed to):
   `exit …` / `pos …`   the returned `PositionExited` and `PositionManager.current`, every field
-  `side`, `qty`, `exited`, `cash`, `fees`, `idrec`, `opened`, `exitfee`
+  `side`, `qty`, `exited`, `cash`, `fees`, `idrec`, `opened`, `exitfee`, `life`, `exlife`
                        the quantities the property constrains (see `Driver.C02.derived`); these
                        are the keys the `spec` driver prints from the fill history alone.
 -/
@@ -77,6 +77,22 @@ def derived (prev : Option Position) (r : Run) (exit : Option PositionExited) (t
     (cur.map fun p => p.trades.contains t.id) (exit.map fun e => e.trades.contains t.id)
     opened exitfee
 
+/-- `life` / `exlife`: ids, largest size and entry time of the open position / of the closed record. -/
+def lifeLine (maxAbs : Rat) (tEnter : Int) (l : List Nat) : String :=
+  " ".intercalate ["life", fmtRat maxAbs, toString tEnter, ids l]
+
+def exlifeLine (maxAbs : Rat) (tEnter tExit : Int) (side : Option Side) (l : List Nat) : String :=
+  " ".intercalate ["exlife", fmtRat maxAbs, toString tEnter, toString tExit,
+    (match side with | some s => s2s s | none => "none"), ids l]
+
+def lifeLines (cur : Option Position) (exit : Option PositionExited) : List String :=
+  [ (match cur with
+     | some p => lifeLine p.quantityAbsMax p.timeEnter p.trades
+     | none => "life none"),
+    (match exit with
+     | some e => exlifeLine e.quantityAbsMax e.timeEnter e.timeExit (some e.side) e.trades
+     | none => "exlife none") ]
+
 def parseSide : String → Option Side
   | "B" => some .buy
   | "S" => some .sell
@@ -131,7 +147,8 @@ def model : Drv MSt where
             let u := r.pm.update t
             let r' := r.step t
             ({ s with runs := s.runs.set k r' },
-              fmtExit u.2 :: fmtPos r'.pm.current :: derived r.pm.current r' u.2 t)
+              fmtExit u.2 :: fmtPos r'.pm.current ::
+                (derived r.pm.current r' u.2 t ++ lifeLines r'.pm.current u.2))
 
 /-- Spec state of one instrument: its fills so far; `ok = false` once a fill outside the property's
 quantifier (price ≤ 0, quantity ≤ 0, fee < 0, or a second instrument on a bare position manager)
@@ -162,7 +179,12 @@ def specLines (fs : List Trade) (t : Trade) : List String :=
   propLines (sideOfNet after) (BarterModel.Position.abs after) exited (cash (fs ++ [t]))
     (feeSum (fs ++ [t]))
     (if after = 0 then none else some true) (if exited then some true else none)
-    opened exitfee
+    opened exitfee ++
+  [ (let l := life (fs ++ [t])
+     if after = 0 then "life none" else lifeLine l.maxAbs l.timeEnter l.ids),
+    (let l := life fs
+     if exited then exlifeLine l.maxAbs l.timeEnter t.time (sideOfNet before) (l.ids ++ [t.id])
+     else "exlife none") ]
 
 def spec : Drv SSt where
   init := ⟨.unset, []⟩
